@@ -148,6 +148,57 @@ func (b *Builder) epsilonClosure(states []nfa.StateID, lookHave LookSet) []nfa.S
 	return closure.ToSliceInsertionOrder()
 }
 
+// searchScratch holds the buffers the searches of one DFACache compute NFA state
+// lists in (epsilon closures, determinize steps). They are owned by the cache, so a
+// search that creates no DFA state allocates nothing; a list in a buffer is only
+// valid until the buffer is written again, and is copied when it becomes a State.
+type searchScratch struct {
+	// set and stack are the working set and the DFS stack of a closure.
+	set   StateSet
+	stack []nfa.StateID
+
+	// resolved receives a look-ahead re-closure (determinize step 1; also the
+	// closures of tryClearCache, checkEOIMatch and matchesEmptyAt).
+	// next receives the successor list of determinize and the thread list of a
+	// start state: they must survive a tryClearCache, which only writes resolved.
+	// walk is the second list of the uncached reverse walk (it alternates with next).
+	resolved, next, walk []nfa.StateID
+}
+
+// prepare makes the working set large enough for the NFA and empties it.
+func (sc *searchScratch) prepare(n *nfa.NFA) *StateSet {
+	if states := n.States(); len(sc.set.sparse) < states {
+		sc.set.sparse = make([]uint32, states)
+		sc.set.dense = make([]nfa.StateID, states)
+	}
+	sc.set.size = 0
+	return &sc.set
+}
+
+// epsilonClosureTo is epsilonClosure with the result written to dst (which is
+// overwritten and returned, grown if necessary) and all temporaries taken from sc.
+// states must not alias dst.
+func (b *Builder) epsilonClosureTo(sc *searchScratch, dst []nfa.StateID, states []nfa.StateID, lookHave LookSet) []nfa.StateID {
+	closure := sc.prepare(b.nfa)
+	for _, sid := range states {
+		sc.stack = b.epsilonClosureIntoStack(closure, sid, lookHave, sc.stack)
+	}
+	return append(dst[:0], closure.dense[:closure.size]...)
+}
+
+// resolveLookAheadTo is resolveLookAhead on scratch buffers (see epsilonClosureTo).
+func (b *Builder) resolveLookAheadTo(sc *searchScratch, dst []nfa.StateID, states []nfa.StateID, lookBehind LookSet, isFromWord bool, input byte) []nfa.StateID {
+	return b.epsilonClosureTo(sc, dst, states, lookAheadSet(lookBehind, isFromWord, input))
+}
+
+// stepTo is step on scratch buffers (see epsilonClosureTo). resolvedStates must
+// not alias dst.
+func (b *Builder) stepTo(sc *searchScratch, dst []nfa.StateID, resolvedStates []nfa.StateID, input byte, breakAtMatch bool) []nfa.StateID {
+	result := sc.prepare(b.nfa)
+	sc.stack = b.stepInto(result, sc.stack, resolvedStates, input, breakAtMatch)
+	return append(dst[:0], result.dense[:result.size]...)
+}
+
 // moveWithWordContext computes the set of NFA states reachable from the given states on input byte b,
 // with full word boundary tracking.
 //
@@ -201,6 +252,12 @@ func (b *Builder) moveWithWordContextBreak(states []nfa.StateID, input byte, isF
 // was followed before would otherwise be re-inserted at their own list position,
 // behind lower priority threads.
 func (b *Builder) resolveLookAhead(states []nfa.StateID, lookBehind LookSet, isFromWord bool, input byte) []nfa.StateID {
+	return b.epsilonClosure(states, lookAheadSet(lookBehind, isFromWord, input))
+}
+
+// lookAheadSet is the look set of resolveLookAhead: the look-behind context plus
+// the assertions decided by the next input byte.
+func lookAheadSet(lookBehind LookSet, isFromWord bool, input byte) LookSet {
 	look := lookBehind
 	if input == '\n' {
 		look |= LookEndLine
@@ -210,7 +267,7 @@ func (b *Builder) resolveLookAhead(states []nfa.StateID, lookBehind LookSet, isF
 	} else {
 		look |= LookNoWordBoundary
 	}
-	return b.epsilonClosure(states, look)
+	return look
 }
 
 // step computes the threads after consuming input: for every thread of the
@@ -229,6 +286,23 @@ func (b *Builder) resolveLookAhead(states []nfa.StateID, lookBehind LookSet, isF
 // appear before prefix restart states from later targets, making break-at-match
 // work correctly for all patterns.
 func (b *Builder) step(resolvedStates []nfa.StateID, input byte, breakAtMatch bool) []nfa.StateID {
+	result := acquireStateSet()
+	b.stepInto(result, make([]nfa.StateID, 0, 8), resolvedStates, input, breakAtMatch)
+
+	if result.Len() == 0 {
+		releaseStateSet(result)
+		return nil
+	}
+
+	resultSlice := result.ToSliceInsertionOrder()
+	releaseStateSet(result)
+	return resultSlice
+}
+
+// stepInto is the body of step: it adds the threads after consuming input to
+// result (which the caller has emptied), in priority order. stack is scratch space
+// for the closures; it is returned (possibly grown) for reuse.
+func (b *Builder) stepInto(result *StateSet, stack []nfa.StateID, resolvedStates []nfa.StateID, input byte, breakAtMatch bool) []nfa.StateID {
 	// Determine look assertions satisfied after this byte transition.
 	var lookAfter LookSet
 	if input == '\n' {
@@ -238,8 +312,6 @@ func (b *Builder) step(resolvedStates []nfa.StateID, input byte, breakAtMatch bo
 	// Incremental epsilon closure: for each ByteRange match, epsilon-close the
 	// target into the result set immediately. This matches Rust's determinize::next
 	// where each matched target is epsilon-closed into sparses.set2 in iteration order.
-	result := acquireStateSet()
-
 	for _, sid := range resolvedStates {
 		state := b.nfa.State(sid)
 		if state == nil {
@@ -255,26 +327,18 @@ func (b *Builder) step(resolvedStates []nfa.StateID, input byte, breakAtMatch bo
 		case nfa.StateByteRange:
 			lo, hi, next := state.ByteRange()
 			if input >= lo && input <= hi {
-				b.epsilonClosureInto(result, next, lookAfter)
+				stack = b.epsilonClosureIntoStack(result, next, lookAfter, stack)
 			}
 
 		case nfa.StateSparse:
 			for _, tr := range state.Transitions() {
 				if input >= tr.Lo && input <= tr.Hi {
-					b.epsilonClosureInto(result, tr.Next, lookAfter)
+					stack = b.epsilonClosureIntoStack(result, tr.Next, lookAfter, stack)
 				}
 			}
 		}
 	}
-
-	if result.Len() == 0 {
-		releaseStateSet(result)
-		return nil
-	}
-
-	resultSlice := result.ToSliceInsertionOrder()
-	releaseStateSet(result)
-	return resultSlice
+	return stack
 }
 
 // epsilonClosureInto adds a single state and its epsilon closure to an existing
@@ -282,9 +346,15 @@ func (b *Builder) step(resolvedStates []nfa.StateID, input byte, breakAtMatch bo
 // This enables incremental epsilon closure matching Rust's determinize::next
 // where each matched ByteRange target is closed into the result set in order.
 func (b *Builder) epsilonClosureInto(result *StateSet, seed nfa.StateID, lookHave LookSet) {
+	b.epsilonClosureIntoStack(result, seed, lookHave, make([]nfa.StateID, 0, 8))
+}
+
+// epsilonClosureIntoStack is epsilonClosureInto with the DFS stack provided by the
+// caller (its contents are ignored). The stack is returned, empty but possibly
+// grown, so that the caller can keep it for the next closure.
+func (b *Builder) epsilonClosureIntoStack(result *StateSet, seed nfa.StateID, lookHave LookSet, stack []nfa.StateID) []nfa.StateID {
 	// Same add-on-pop + reverse-push approach as epsilonClosure.
-	stack := make([]nfa.StateID, 1, 8)
-	stack[0] = seed
+	stack = append(stack[:0], seed)
 
 	for len(stack) > 0 {
 		current := stack[len(stack)-1]
@@ -329,6 +399,7 @@ func (b *Builder) epsilonClosureInto(result *StateSet, seed nfa.StateID, lookHav
 			}
 		}
 	}
+	return stack
 }
 
 // resolveWordBoundaries expands the NFA state set by following word boundary assertions
@@ -507,13 +578,19 @@ func (b *Builder) CheckEOIMatch(states []nfa.StateID, isFromWord bool) bool {
 // "(?m)^$" on an empty last line are followed whatever the order of the
 // assertions is.
 func (b *Builder) checkEOIMatchLook(states []nfa.StateID, isFromWord bool, lookBehind LookSet) bool {
+	return b.containsMatchState(b.epsilonClosure(states, eoiLookSet(isFromWord, lookBehind)))
+}
+
+// eoiLookSet is the look set of the end of input behind a state with the given
+// look-behind context (see checkEOIMatchLook).
+func eoiLookSet(isFromWord bool, lookBehind LookSet) LookSet {
 	look := lookBehind | LookSetForEOI()
 	if isFromWord {
 		look |= LookWordBoundary
 	} else {
 		look |= LookNoWordBoundary
 	}
-	return b.containsMatchState(b.epsilonClosure(states, look))
+	return look
 }
 
 // Compile is a convenience function to build a DFA from an NFA with default config
